@@ -66,5 +66,49 @@ PROPS["C01"] = {
     "assumptions": ["perfect signature scheme abstraction", "key ids identify keys (C13)"],
 }
 
+_CLIENT_TRUSTED = ["modelled, not verified: signature schemes (abstract, see C01), serde parsing of metadata files, "
+                   "the transport (scripted in-memory Transport in the harness), tokio/tempfile/filesystem behaviour of the datastore"]
+
+PROPS["C02"] = {
+    "package": "cyc", "exe": "m_client", "harness_args": ["--prop", "C02"],
+    "rule": "root chains of length 0..4; per hop a rotation kind of the root role (same keys, disjoint, overlapping, "
+            "threshold up/down, algorithm change to ecdsa/rsa) and occasional rotation of the online keys; at most one "
+            "broken hop at every position in each of twelve ways (signed only by old keys, only by new keys, one short "
+            "of the old / new threshold, lower version, trusted version under the next name, skipping past, unparsable, "
+            "absent, transport error at open, mid-stream error, mid-stream not-found); top-level metadata signed by the "
+            "keys of every epoch; small max_root_updates now and then. Non-trivial: chain length >= 1 and (a broken hop "
+            "or metadata signed by a non-final epoch). Distinct = distinct abstract inputs.",
+    "explanation": "Theorems (Tough/Props/C02.lean): a successful load_root yields a chain from the shipped root in which "
+                   "every member is the file served for the next version, doubly signed and of higher version, ending "
+                   "where the next version is unavailable; unverified shipped roots are refused; a broken hop anywhere "
+                   "along the chain fails the cycle; only the final root authorizes; root requests <= max_root_updates. "
+                   "Correspondence: RepositoryLoader::load on materialised chains, comparing success, final root version "
+                   "and the list of N.root.json requests with the model.",
+    "level_text": "Kernel-checked characterisation of the root walk (induction over the loop, unbounded chain length) plus "
+                  "differential runs of the real load() on generated chains with real signatures.",
+    "level_note": "Trusted: Lean kernel, standard axioms; the abstraction of signatures and parsing; the harness. The "
+                  "model takes fuel max_root_updates+1 (proved never exhausted: rootLoop_no_fuel_error).",
+    "trusted": _CLIENT_TRUSTED, "assumptions": [],
+}
+
+PROPS["C05"] = {
+    "package": "cyc", "exe": "m_client", "harness_args": ["--prop", "C05"],
+    "rule": "three repository states (versions 1..3 of snapshot, targets and delegated roles, different target sets), both "
+            "consistent-snapshot settings, pinning documents with/without length and with/without digest; the served "
+            "files are state a's with 0..2 substitutions of timestamp/snapshot/targets/role by another state's file, by "
+            "the same document with trailing whitespace (other digest and length, same signatures) or re-signed with an "
+            "extra unrelated signature entry; occasionally the delegated role is dropped from the snapshot listing. "
+            "Non-trivial: some served file differs from what its pinning document describes, or digest/length absent.",
+    "explanation": "Theorems (Tough/Props/C05.lean): the trusted snapshot/targets have exactly the pinned version, come "
+                   "from the file named by the pinning entry (version-prefixed under consistent snapshots), have the "
+                   "pinned digest and do not exceed the pinned length; every delegated role at any depth is listed and "
+                   "has the listed version. Correspondence: load() result and request log vs the model.",
+    "level_text": "Kernel-checked inversion of the update cycle (what a successful cycle has checked about pinning), "
+                  "differential runs on mixed repository states.",
+    "level_note": "Trusted: Lean kernel, standard axioms; SHA-256 as an abstract digest identity (collision-freeness is "
+                  "not needed: statements speak of the recorded digest); the harness.",
+    "trusted": _CLIENT_TRUSTED, "assumptions": [],
+}
+
 _PENDING = "check under construction in this session (DESIGN.md §10 order of work); not claimed until it runs"
 NOT_APPLICABLE = {f"C{i:02d}": _PENDING for i in range(1, 21)}
